@@ -264,6 +264,12 @@ let rec forallb f = function
 | [] -> true
 | a :: l0 -> (&&) (f a) (forallb f l0)
 
+(** val filter : ('a1 -> bool) -> 'a1 list -> 'a1 list **)
+
+let rec filter f = function
+| [] -> []
+| x :: l0 -> if f x then x :: (filter f l0) else filter f l0
+
 (** val find : ('a1 -> bool) -> 'a1 list -> 'a1 option **)
 
 let rec find f = function
@@ -3425,6 +3431,11 @@ let rec block_visit c fuel n0 t =
                             | None -> None)
                     | _ :: _ -> children n0 t)
                  | _ -> children n0 t)))
+        | KArrow ->
+          children
+            (if status_eqb t.t_status Cancelled
+             then n0
+             else arrow_transform n0) t
         | _ -> children n0 t)
      | _ -> children n0 t)
 
@@ -6557,3 +6568,1546 @@ let rec first_diff_nospan a b =
                | Some path -> Some (i :: path)
                | None -> go (S i) x' y'))
        in go O ca cb
+
+type site_cfg = { sc_plus : bool; sc_tpl : bool; sc_methods : char list list;
+                  sc_lit_callers : char list list }
+
+type site = { s_key : sp; s_what : char list; s_class : char list }
+
+type wctx = { in_block : bool; excluded : bool; cls : char list }
+
+(** val mem_str : char list -> char list list -> bool **)
+
+let mem_str s l =
+  existsb (eqb0 s) l
+
+(** val lit_sum : node -> bool **)
+
+let rec lit_sum e = match e with
+| Node (t, cs) ->
+  (match t with
+   | K (k, _, _) ->
+     (match k with
+      | KBin ->
+        (match cs with
+         | [] -> is_lit e
+         | n0 :: l0 ->
+           let Node (t0, cs0) = n0 in
+           (match t0 with
+            | Str s ->
+              (match s with
+               | [] -> is_lit e
+               | a::s0 ->
+                 (* If this appears, you're using Ascii internals. Please don't *)
+ (fun f c ->
+  let n = Char.code c in
+  let h i = (n land (1 lsl i)) <> 0 in
+  f (h 0) (h 1) (h 2) (h 3) (h 4) (h 5) (h 6) (h 7))
+                   (fun b b0 b1 b2 b3 b4 b5 b6 ->
+                   if b
+                   then if b0
+                        then if b1
+                             then is_lit e
+                             else if b2
+                                  then if b3
+                                       then is_lit e
+                                       else if b4
+                                            then if b5
+                                                 then is_lit e
+                                                 else if b6
+                                                      then is_lit e
+                                                      else (match s0 with
+                                                            | [] ->
+                                                              (match cs0 with
+                                                               | [] ->
+                                                                 (match l0 with
+                                                                  | [] ->
+                                                                    is_lit e
+                                                                  | l :: l1 ->
+                                                                    (match l1 with
+                                                                    | [] ->
+                                                                    is_lit e
+                                                                    | r :: l2 ->
+                                                                    (match l2 with
+                                                                    | [] ->
+                                                                    (&&)
+                                                                    (lit_sum
+                                                                    l)
+                                                                    (lit_sum
+                                                                    r)
+                                                                    | _ :: _ ->
+                                                                    is_lit e)))
+                                                               | _ :: _ ->
+                                                                 is_lit e)
+                                                            | _::_ -> is_lit e)
+                                            else is_lit e
+                                  else is_lit e
+                        else is_lit e
+                   else is_lit e)
+                   a)
+            | _ -> is_lit e))
+      | _ -> is_lit e)
+   | _ -> is_lit e)
+
+(** val tpl_all_nonlit : node list -> bool **)
+
+let tpl_all_nonlit es = match es with
+| [] -> false
+| _ :: _ -> forallb (fun e -> negb (is_lit e)) es
+
+(** val tpl_has_lit : node list -> bool **)
+
+let tpl_has_lit es =
+  existsb is_lit es
+
+(** val undefined_or_null : node -> bool **)
+
+let undefined_or_null e =
+  match ident_sym e with
+  | Some s ->
+    (||)
+      (eqb0 s
+        ('u'::('n'::('d'::('e'::('f'::('i'::('n'::('e'::('d'::[]))))))))))
+      (eqb0 s ('n'::('u'::('l'::('l'::[])))))
+  | None -> false
+
+(** val arg_lit_like : node -> bool **)
+
+let arg_lit_like a =
+  match arg_expr a with
+  | Some e -> (||) (is_lit e) (undefined_or_null e)
+  | None -> false
+
+(** val site_here :
+    site_cfg -> node -> ((sp * char list) * char list) list **)
+
+let site_here c = function
+| Node (t, cs) ->
+  (match t with
+   | K (k, lo, hi) ->
+     (match k with
+      | KBin ->
+        (match cs with
+         | [] -> []
+         | n1 :: l0 ->
+           let Node (t0, cs0) = n1 in
+           (match t0 with
+            | Str s ->
+              (match s with
+               | [] -> []
+               | a::s0 ->
+                 (* If this appears, you're using Ascii internals. Please don't *)
+ (fun f c ->
+  let n = Char.code c in
+  let h i = (n land (1 lsl i)) <> 0 in
+  f (h 0) (h 1) (h 2) (h 3) (h 4) (h 5) (h 6) (h 7))
+                   (fun b b0 b1 b2 b3 b4 b5 b6 ->
+                   if b
+                   then if b0
+                        then if b1
+                             then []
+                             else if b2
+                                  then if b3
+                                       then []
+                                       else if b4
+                                            then if b5
+                                                 then []
+                                                 else if b6
+                                                      then []
+                                                      else (match s0 with
+                                                            | [] ->
+                                                              (match cs0 with
+                                                               | [] ->
+                                                                 (match l0 with
+                                                                  | [] -> []
+                                                                  | l :: l1 ->
+                                                                    (match l1 with
+                                                                    | [] -> []
+                                                                    | r :: l2 ->
+                                                                    (match l2 with
+                                                                    | [] ->
+                                                                    if 
+                                                                    (&&)
+                                                                    c.sc_plus
+                                                                    (negb
+                                                                    ((&&)
+                                                                    (lit_sum
+                                                                    l)
+                                                                    (lit_sum
+                                                                    r)))
+                                                                    then 
+                                                                    (((lo,
+                                                                    hi),
+                                                                    ('+'::[])),
+                                                                    []) :: []
+                                                                    else []
+                                                                    | _ :: _ ->
+                                                                    [])))
+                                                               | _ :: _ -> [])
+                                                            | _::_ -> [])
+                                            else []
+                                  else []
+                        else []
+                   else [])
+                   a)
+            | _ -> []))
+      | KAssign ->
+        (match cs with
+         | [] -> []
+         | n1 :: l ->
+           let Node (t0, cs0) = n1 in
+           (match t0 with
+            | Str s ->
+              (match s with
+               | [] -> []
+               | a::s0 ->
+                 (* If this appears, you're using Ascii internals. Please don't *)
+ (fun f c ->
+  let n = Char.code c in
+  let h i = (n land (1 lsl i)) <> 0 in
+  f (h 0) (h 1) (h 2) (h 3) (h 4) (h 5) (h 6) (h 7))
+                   (fun b b0 b1 b2 b3 b4 b5 b6 ->
+                   if b
+                   then if b0
+                        then if b1
+                             then []
+                             else if b2
+                                  then if b3
+                                       then []
+                                       else if b4
+                                            then if b5
+                                                 then []
+                                                 else if b6
+                                                      then []
+                                                      else (match s0 with
+                                                            | [] -> []
+                                                            | a0::s1 ->
+                                                              (* If this appears, you're using Ascii internals. Please don't *)
+ (fun f c ->
+  let n = Char.code c in
+  let h i = (n land (1 lsl i)) <> 0 in
+  f (h 0) (h 1) (h 2) (h 3) (h 4) (h 5) (h 6) (h 7))
+                                                                (fun b7 b8 b9 b10 b11 b12 b13 b14 ->
+                                                                if b7
+                                                                then 
+                                                                  if b8
+                                                                  then []
+                                                                  else 
+                                                                    if b9
+                                                                    then 
+                                                                    if b10
+                                                                    then 
+                                                                    if b11
+                                                                    then 
+                                                                    if b12
+                                                                    then 
+                                                                    if b13
+                                                                    then []
+                                                                    else 
+                                                                    if b14
+                                                                    then []
+                                                                    else 
+                                                                    (match s1 with
+                                                                    | [] ->
+                                                                    (match cs0 with
+                                                                    | [] ->
+                                                                    (match l with
+                                                                    | [] -> []
+                                                                    | _ :: l0 ->
+                                                                    (match l0 with
+                                                                    | [] -> []
+                                                                    | _ :: l1 ->
+                                                                    (match l1 with
+                                                                    | [] ->
+                                                                    if c.sc_plus
+                                                                    then 
+                                                                    (((lo,
+                                                                    hi),
+                                                                    ('+'::('='::[]))),
+                                                                    []) :: []
+                                                                    else []
+                                                                    | _ :: _ ->
+                                                                    [])))
+                                                                    | _ :: _ ->
+                                                                    [])
+                                                                    | _::_ ->
+                                                                    [])
+                                                                    else []
+                                                                    else []
+                                                                    else []
+                                                                    else []
+                                                                else [])
+                                                                a0)
+                                            else []
+                                  else []
+                        else []
+                   else [])
+                   a)
+            | _ -> []))
+      | KTpl ->
+        (match cs with
+         | [] -> []
+         | n1 :: l ->
+           let Node (t0, es) = n1 in
+           (match t0 with
+            | Lst ->
+              (match l with
+               | [] -> []
+               | _ :: l0 ->
+                 (match l0 with
+                  | [] ->
+                    if (&&) c.sc_tpl (tpl_all_nonlit es)
+                    then (((lo, hi), ('T'::('p'::('l'::[])))), []) :: []
+                    else []
+                  | _ :: _ -> []))
+            | _ -> []))
+      | KCall ->
+        (match cs with
+         | [] -> []
+         | _ :: l ->
+           (match l with
+            | [] -> []
+            | n1 :: l0 ->
+              let Node (t0, cs0) = n1 in
+              (match t0 with
+               | K (k0, _, _) ->
+                 (match k0 with
+                  | KMember ->
+                    (match cs0 with
+                     | [] -> []
+                     | obj :: l1 ->
+                       (match l1 with
+                        | [] -> []
+                        | prop :: l2 ->
+                          (match l2 with
+                           | [] ->
+                             (match l0 with
+                              | [] -> []
+                              | n2 :: l3 ->
+                                let Node (t1, args) = n2 in
+                                (match t1 with
+                                 | Lst ->
+                                   (match l3 with
+                                    | [] -> []
+                                    | _ :: l4 ->
+                                      (match l4 with
+                                       | [] ->
+                                         (match ident_name_sym prop with
+                                          | Some m ->
+                                            if mem_str m c.sc_methods
+                                            then let ok =
+                                                   if is_lit obj
+                                                   then mem_str m
+                                                          c.sc_lit_callers
+                                                   else if (||)
+                                                             ((||)
+                                                               ((||)
+                                                                 (is_ident
+                                                                   obj)
+                                                                 (is_kind
+                                                                   KCall obj))
+                                                               (is_kind
+                                                                 KParen obj))
+                                                             (is_kind KArray
+                                                               obj)
+                                                        then true
+                                                        else let Node (
+                                                               t2, cs1) = obj
+                                                             in
+                                                             (match t2 with
+                                                              | K (k1, _, _) ->
+                                                                (match k1 with
+                                                                 | KMember ->
+                                                                   (match cs1 with
+                                                                    | [] ->
+                                                                    false
+                                                                    | _ :: l5 ->
+                                                                    (match l5 with
+                                                                    | [] ->
+                                                                    false
+                                                                    | p2 :: l6 ->
+                                                                    (match l6 with
+                                                                    | [] ->
+                                                                    negb
+                                                                    (match 
+                                                                    ident_name_sym
+                                                                    p2 with
+                                                                    | Some s ->
+                                                                    (match s with
+                                                                    | [] ->
+                                                                    false
+                                                                    | a::s0 ->
+                                                                    (* If this appears, you're using Ascii internals. Please don't *)
+ (fun f c ->
+  let n = Char.code c in
+  let h i = (n land (1 lsl i)) <> 0 in
+  f (h 0) (h 1) (h 2) (h 3) (h 4) (h 5) (h 6) (h 7))
+                                                                    (fun b b0 b1 b2 b3 b4 b5 b6 ->
+                                                                    if b
+                                                                    then false
+                                                                    else 
+                                                                    if b0
+                                                                    then false
+                                                                    else 
+                                                                    if b1
+                                                                    then false
+                                                                    else 
+                                                                    if b2
+                                                                    then false
+                                                                    else 
+                                                                    if b3
+                                                                    then 
+                                                                    if b4
+                                                                    then 
+                                                                    if b5
+                                                                    then 
+                                                                    if b6
+                                                                    then false
+                                                                    else 
+                                                                    (match s0 with
+                                                                    | [] ->
+                                                                    false
+                                                                    | a0::s1 ->
+                                                                    (* If this appears, you're using Ascii internals. Please don't *)
+ (fun f c ->
+  let n = Char.code c in
+  let h i = (n land (1 lsl i)) <> 0 in
+  f (h 0) (h 1) (h 2) (h 3) (h 4) (h 5) (h 6) (h 7))
+                                                                    (fun b7 b8 b9 b10 b11 b12 b13 b14 ->
+                                                                    if b7
+                                                                    then false
+                                                                    else 
+                                                                    if b8
+                                                                    then 
+                                                                    if b9
+                                                                    then false
+                                                                    else 
+                                                                    if b10
+                                                                    then false
+                                                                    else 
+                                                                    if b11
+                                                                    then 
+                                                                    if b12
+                                                                    then 
+                                                                    if b13
+                                                                    then 
+                                                                    if b14
+                                                                    then false
+                                                                    else 
+                                                                    (match s1 with
+                                                                    | [] ->
+                                                                    false
+                                                                    | a1::s2 ->
+                                                                    (* If this appears, you're using Ascii internals. Please don't *)
+ (fun f c ->
+  let n = Char.code c in
+  let h i = (n land (1 lsl i)) <> 0 in
+  f (h 0) (h 1) (h 2) (h 3) (h 4) (h 5) (h 6) (h 7))
+                                                                    (fun b15 b16 b17 b18 b19 b20 b21 b22 ->
+                                                                    if b15
+                                                                    then 
+                                                                    if b16
+                                                                    then 
+                                                                    if b17
+                                                                    then 
+                                                                    if b18
+                                                                    then 
+                                                                    if b19
+                                                                    then false
+                                                                    else 
+                                                                    if b20
+                                                                    then 
+                                                                    if b21
+                                                                    then 
+                                                                    if b22
+                                                                    then false
+                                                                    else 
+                                                                    (match s2 with
+                                                                    | [] ->
+                                                                    false
+                                                                    | a2::s3 ->
+                                                                    (* If this appears, you're using Ascii internals. Please don't *)
+ (fun f c ->
+  let n = Char.code c in
+  let h i = (n land (1 lsl i)) <> 0 in
+  f (h 0) (h 1) (h 2) (h 3) (h 4) (h 5) (h 6) (h 7))
+                                                                    (fun b23 b24 b25 b26 b27 b28 b29 b30 ->
+                                                                    if b23
+                                                                    then false
+                                                                    else 
+                                                                    if b24
+                                                                    then false
+                                                                    else 
+                                                                    if b25
+                                                                    then 
+                                                                    if b26
+                                                                    then false
+                                                                    else 
+                                                                    if b27
+                                                                    then 
+                                                                    if b28
+                                                                    then 
+                                                                    if b29
+                                                                    then 
+                                                                    if b30
+                                                                    then false
+                                                                    else 
+                                                                    (match s3 with
+                                                                    | [] ->
+                                                                    false
+                                                                    | a3::s4 ->
+                                                                    (* If this appears, you're using Ascii internals. Please don't *)
+ (fun f c ->
+  let n = Char.code c in
+  let h i = (n land (1 lsl i)) <> 0 in
+  f (h 0) (h 1) (h 2) (h 3) (h 4) (h 5) (h 6) (h 7))
+                                                                    (fun b31 b32 b33 b34 b35 b36 b37 b38 ->
+                                                                    if b31
+                                                                    then 
+                                                                    if b32
+                                                                    then 
+                                                                    if b33
+                                                                    then 
+                                                                    if b34
+                                                                    then 
+                                                                    if b35
+                                                                    then false
+                                                                    else 
+                                                                    if b36
+                                                                    then 
+                                                                    if b37
+                                                                    then 
+                                                                    if b38
+                                                                    then false
+                                                                    else 
+                                                                    (match s4 with
+                                                                    | [] ->
+                                                                    false
+                                                                    | a4::s5 ->
+                                                                    (* If this appears, you're using Ascii internals. Please don't *)
+ (fun f c ->
+  let n = Char.code c in
+  let h i = (n land (1 lsl i)) <> 0 in
+  f (h 0) (h 1) (h 2) (h 3) (h 4) (h 5) (h 6) (h 7))
+                                                                    (fun b39 b40 b41 b42 b43 b44 b45 b46 ->
+                                                                    if b39
+                                                                    then false
+                                                                    else 
+                                                                    if b40
+                                                                    then false
+                                                                    else 
+                                                                    if b41
+                                                                    then 
+                                                                    if b42
+                                                                    then false
+                                                                    else 
+                                                                    if b43
+                                                                    then 
+                                                                    if b44
+                                                                    then 
+                                                                    if b45
+                                                                    then 
+                                                                    if b46
+                                                                    then false
+                                                                    else 
+                                                                    (match s5 with
+                                                                    | [] ->
+                                                                    false
+                                                                    | a5::s6 ->
+                                                                    (* If this appears, you're using Ascii internals. Please don't *)
+ (fun f c ->
+  let n = Char.code c in
+  let h i = (n land (1 lsl i)) <> 0 in
+  f (h 0) (h 1) (h 2) (h 3) (h 4) (h 5) (h 6) (h 7))
+                                                                    (fun b47 b48 b49 b50 b51 b52 b53 b54 ->
+                                                                    if b47
+                                                                    then 
+                                                                    if b48
+                                                                    then false
+                                                                    else 
+                                                                    if b49
+                                                                    then false
+                                                                    else 
+                                                                    if b50
+                                                                    then 
+                                                                    if b51
+                                                                    then 
+                                                                    if b52
+                                                                    then 
+                                                                    if b53
+                                                                    then 
+                                                                    if b54
+                                                                    then false
+                                                                    else 
+                                                                    (match s6 with
+                                                                    | [] ->
+                                                                    false
+                                                                    | a6::s7 ->
+                                                                    (* If this appears, you're using Ascii internals. Please don't *)
+ (fun f c ->
+  let n = Char.code c in
+  let h i = (n land (1 lsl i)) <> 0 in
+  f (h 0) (h 1) (h 2) (h 3) (h 4) (h 5) (h 6) (h 7))
+                                                                    (fun b55 b56 b57 b58 b59 b60 b61 b62 ->
+                                                                    if b55
+                                                                    then false
+                                                                    else 
+                                                                    if b56
+                                                                    then false
+                                                                    else 
+                                                                    if b57
+                                                                    then false
+                                                                    else 
+                                                                    if b58
+                                                                    then false
+                                                                    else 
+                                                                    if b59
+                                                                    then 
+                                                                    if b60
+                                                                    then 
+                                                                    if b61
+                                                                    then 
+                                                                    if b62
+                                                                    then false
+                                                                    else 
+                                                                    (match s7 with
+                                                                    | [] ->
+                                                                    false
+                                                                    | a7::s8 ->
+                                                                    (* If this appears, you're using Ascii internals. Please don't *)
+ (fun f c ->
+  let n = Char.code c in
+  let h i = (n land (1 lsl i)) <> 0 in
+  f (h 0) (h 1) (h 2) (h 3) (h 4) (h 5) (h 6) (h 7))
+                                                                    (fun b63 b64 b65 b66 b67 b68 b69 b70 ->
+                                                                    if b63
+                                                                    then 
+                                                                    if b64
+                                                                    then false
+                                                                    else 
+                                                                    if b65
+                                                                    then 
+                                                                    if b66
+                                                                    then false
+                                                                    else 
+                                                                    if b67
+                                                                    then false
+                                                                    else 
+                                                                    if b68
+                                                                    then 
+                                                                    if b69
+                                                                    then 
+                                                                    if b70
+                                                                    then false
+                                                                    else 
+                                                                    (match s8 with
+                                                                    | [] ->
+                                                                    true
+                                                                    | _::_ ->
+                                                                    false)
+                                                                    else false
+                                                                    else false
+                                                                    else false
+                                                                    else false)
+                                                                    a7)
+                                                                    else false
+                                                                    else false
+                                                                    else false)
+                                                                    a6)
+                                                                    else false
+                                                                    else false
+                                                                    else false
+                                                                    else false
+                                                                    else false)
+                                                                    a5)
+                                                                    else false
+                                                                    else false
+                                                                    else false
+                                                                    else false)
+                                                                    a4)
+                                                                    else false
+                                                                    else false
+                                                                    else false
+                                                                    else false
+                                                                    else false
+                                                                    else false)
+                                                                    a3)
+                                                                    else false
+                                                                    else false
+                                                                    else false
+                                                                    else false)
+                                                                    a2)
+                                                                    else false
+                                                                    else false
+                                                                    else false
+                                                                    else false
+                                                                    else false
+                                                                    else false)
+                                                                    a1)
+                                                                    else false
+                                                                    else false
+                                                                    else false
+                                                                    else false)
+                                                                    a0)
+                                                                    else false
+                                                                    else false
+                                                                    else false)
+                                                                    a)
+                                                                    | None ->
+                                                                    false)
+                                                                    | _ :: _ ->
+                                                                    false)))
+                                                                 | _ -> false)
+                                                              | _ -> false)
+                                                 in
+                                                 if ok
+                                                 then (((span_of prop), m),
+                                                        []) :: []
+                                                 else []
+                                            else if (||)
+                                                      (eqb0 m
+                                                        ('c'::('a'::('l'::('l'::[])))))
+                                                      (eqb0 m
+                                                        ('a'::('p'::('p'::('l'::('y'::[]))))))
+                                                 then let Node (t2, cs1) = obj
+                                                      in
+                                                      (match t2 with
+                                                       | K (k1, _, _) ->
+                                                         (match k1 with
+                                                          | KMember ->
+                                                            (match cs1 with
+                                                             | [] -> []
+                                                             | _ :: l5 ->
+                                                               (match l5 with
+                                                                | [] -> []
+                                                                | p2 :: l6 ->
+                                                                  (match l6 with
+                                                                   | [] ->
+                                                                    (match 
+                                                                    ident_name_sym
+                                                                    p2 with
+                                                                    | Some m2 ->
+                                                                    if 
+                                                                    mem_str
+                                                                    m2
+                                                                    c.sc_methods
+                                                                    then 
+                                                                    (match args with
+                                                                    | [] -> []
+                                                                    | this :: rest ->
+                                                                    if 
+                                                                    arg_is_spread
+                                                                    this
+                                                                    then 
+                                                                    (((span_of
+                                                                    p2), m2),
+                                                                    []) :: []
+                                                                    else 
+                                                                    let this_lit =
+                                                                    match 
+                                                                    arg_expr
+                                                                    this with
+                                                                    | Some t3 ->
+                                                                    is_lit t3
+                                                                    | None ->
+                                                                    false
+                                                                    in
+                                                                    if 
+                                                                    (&&)
+                                                                    this_lit
+                                                                    ((||)
+                                                                    (negb
+                                                                    (mem_str
+                                                                    m2
+                                                                    c.sc_lit_callers))
+                                                                    (forallb
+                                                                    arg_lit_like
+                                                                    rest))
+                                                                    then []
+                                                                    else 
+                                                                    if 
+                                                                    eqb0 m
+                                                                    ('a'::('p'::('p'::('l'::('y'::[])))))
+                                                                    then 
+                                                                    (match rest with
+                                                                    | [] ->
+                                                                    (((span_of
+                                                                    p2), m2),
+                                                                    ('a'::('p'::('p'::('l'::('y'::('-'::('n'::('o'::('n'::('a'::('r'::('r'::('a'::('y'::('-'::('a'::('r'::('g'::('s'::[])))))))))))))))))))) :: []
+                                                                    | second :: _ ->
+                                                                    (match 
+                                                                    arg_expr
+                                                                    second with
+                                                                    | Some n3 ->
+                                                                    let Node (
+                                                                    t3, cs2) =
+                                                                    n3
+                                                                    in
+                                                                    (
+                                                                    match t3 with
+                                                                    | K (
+                                                                    k2, _, _) ->
+                                                                    (match k2 with
+                                                                    | KArray ->
+                                                                    (match cs2 with
+                                                                    | [] ->
+                                                                    if 
+                                                                    arg_is_spread
+                                                                    second
+                                                                    then 
+                                                                    (((span_of
+                                                                    p2), m2),
+                                                                    []) :: []
+                                                                    else 
+                                                                    (((span_of
+                                                                    p2), m2),
+                                                                    ('a'::('p'::('p'::('l'::('y'::('-'::('n'::('o'::('n'::('a'::('r'::('r'::('a'::('y'::('-'::('a'::('r'::('g'::('s'::[])))))))))))))))))))) :: []
+                                                                    | n4 :: l7 ->
+                                                                    let Node (
+                                                                    t4, elems) =
+                                                                    n4
+                                                                    in
+                                                                    (
+                                                                    match t4 with
+                                                                    | Lst ->
+                                                                    (match l7 with
+                                                                    | [] ->
+                                                                    if 
+                                                                    (&&)
+                                                                    this_lit
+                                                                    (forallb
+                                                                    (fun el ->
+                                                                    let Node (
+                                                                    t5, _) =
+                                                                    el
+                                                                    in
+                                                                    (
+                                                                    match t5 with
+                                                                    | Nul ->
+                                                                    false
+                                                                    | _ ->
+                                                                    arg_lit_like
+                                                                    el))
+                                                                    (skipn (S
+                                                                    O) elems))
+                                                                    then []
+                                                                    else 
+                                                                    (((span_of
+                                                                    p2), m2),
+                                                                    []) :: []
+                                                                    | _ :: _ ->
+                                                                    if 
+                                                                    arg_is_spread
+                                                                    second
+                                                                    then 
+                                                                    (((span_of
+                                                                    p2), m2),
+                                                                    []) :: []
+                                                                    else 
+                                                                    (((span_of
+                                                                    p2), m2),
+                                                                    ('a'::('p'::('p'::('l'::('y'::('-'::('n'::('o'::('n'::('a'::('r'::('r'::('a'::('y'::('-'::('a'::('r'::('g'::('s'::[])))))))))))))))))))) :: [])
+                                                                    | _ ->
+                                                                    if 
+                                                                    arg_is_spread
+                                                                    second
+                                                                    then 
+                                                                    (((span_of
+                                                                    p2), m2),
+                                                                    []) :: []
+                                                                    else 
+                                                                    (((span_of
+                                                                    p2), m2),
+                                                                    ('a'::('p'::('p'::('l'::('y'::('-'::('n'::('o'::('n'::('a'::('r'::('r'::('a'::('y'::('-'::('a'::('r'::('g'::('s'::[])))))))))))))))))))) :: []))
+                                                                    | _ ->
+                                                                    if 
+                                                                    arg_is_spread
+                                                                    second
+                                                                    then 
+                                                                    (((span_of
+                                                                    p2), m2),
+                                                                    []) :: []
+                                                                    else 
+                                                                    (((span_of
+                                                                    p2), m2),
+                                                                    ('a'::('p'::('p'::('l'::('y'::('-'::('n'::('o'::('n'::('a'::('r'::('r'::('a'::('y'::('-'::('a'::('r'::('g'::('s'::[])))))))))))))))))))) :: [])
+                                                                    | _ ->
+                                                                    if 
+                                                                    arg_is_spread
+                                                                    second
+                                                                    then 
+                                                                    (((span_of
+                                                                    p2), m2),
+                                                                    []) :: []
+                                                                    else 
+                                                                    (((span_of
+                                                                    p2), m2),
+                                                                    ('a'::('p'::('p'::('l'::('y'::('-'::('n'::('o'::('n'::('a'::('r'::('r'::('a'::('y'::('-'::('a'::('r'::('g'::('s'::[])))))))))))))))))))) :: [])
+                                                                    | None ->
+                                                                    if 
+                                                                    arg_is_spread
+                                                                    second
+                                                                    then 
+                                                                    (((span_of
+                                                                    p2), m2),
+                                                                    []) :: []
+                                                                    else 
+                                                                    (((span_of
+                                                                    p2), m2),
+                                                                    ('a'::('p'::('p'::('l'::('y'::('-'::('n'::('o'::('n'::('a'::('r'::('r'::('a'::('y'::('-'::('a'::('r'::('g'::('s'::[])))))))))))))))))))) :: []))
+                                                                    else 
+                                                                    (((span_of
+                                                                    p2), m2),
+                                                                    []) :: [])
+                                                                    else []
+                                                                    | None ->
+                                                                    [])
+                                                                   | _ :: _ ->
+                                                                    [])))
+                                                          | _ -> [])
+                                                       | _ -> [])
+                                                 else []
+                                          | None -> [])
+                                       | _ :: _ -> []))
+                                 | _ -> []))
+                           | _ :: _ -> [])))
+                  | _ -> [])
+               | _ -> [])))
+      | KOptChain ->
+        (match cs with
+         | [] -> []
+         | n1 :: l ->
+           let Node (t0, cs0) = n1 in
+           (match t0 with
+            | Bln b ->
+              if b
+              then []
+              else (match cs0 with
+                    | [] ->
+                      (match l with
+                       | [] -> []
+                       | n2 :: l0 ->
+                         let Node (t1, cs1) = n2 in
+                         (match t1 with
+                          | K (k0, _, _) ->
+                            (match k0 with
+                             | KCall ->
+                               (match cs1 with
+                                | [] -> []
+                                | _ :: l1 ->
+                                  (match l1 with
+                                   | [] -> []
+                                   | n3 :: l2 ->
+                                     let Node (t2, cs2) = n3 in
+                                     (match t2 with
+                                      | K (k1, _, _) ->
+                                        (match k1 with
+                                         | KOptChain ->
+                                           (match cs2 with
+                                            | [] -> []
+                                            | n4 :: l3 ->
+                                              let Node (t3, cs3) = n4 in
+                                              (match t3 with
+                                               | Bln b0 ->
+                                                 if b0
+                                                 then (match cs3 with
+                                                       | [] ->
+                                                         (match l3 with
+                                                          | [] -> []
+                                                          | n5 :: l4 ->
+                                                            let Node (
+                                                              t4, cs4) = n5
+                                                            in
+                                                            (match t4 with
+                                                             | K (k2, _, _) ->
+                                                               (match k2 with
+                                                                | KMember ->
+                                                                  (match cs4 with
+                                                                   | [] -> []
+                                                                   | obj :: l5 ->
+                                                                    (match l5 with
+                                                                    | [] -> []
+                                                                    | prop :: l6 ->
+                                                                    (match l6 with
+                                                                    | [] ->
+                                                                    (match l4 with
+                                                                    | [] ->
+                                                                    (match l2 with
+                                                                    | [] -> []
+                                                                    | _ :: l7 ->
+                                                                    (match l7 with
+                                                                    | [] -> []
+                                                                    | _ :: l8 ->
+                                                                    (match l8 with
+                                                                    | [] ->
+                                                                    (match l0 with
+                                                                    | [] ->
+                                                                    (match 
+                                                                    ident_name_sym
+                                                                    prop with
+                                                                    | Some m ->
+                                                                    if 
+                                                                    (&&)
+                                                                    (mem_str
+                                                                    m
+                                                                    c.sc_methods)
+                                                                    (negb
+                                                                    (is_lit
+                                                                    obj))
+                                                                    then 
+                                                                    (((span_of
+                                                                    prop),
+                                                                    m),
+                                                                    []) :: []
+                                                                    else []
+                                                                    | None ->
+                                                                    [])
+                                                                    | _ :: _ ->
+                                                                    [])
+                                                                    | _ :: _ ->
+                                                                    [])))
+                                                                    | _ :: _ ->
+                                                                    [])
+                                                                    | _ :: _ ->
+                                                                    [])))
+                                                                | _ -> [])
+                                                             | _ -> []))
+                                                       | _ :: _ -> [])
+                                                 else []
+                                               | _ -> []))
+                                         | _ -> [])
+                                      | _ -> [])))
+                             | _ -> [])
+                          | _ -> []))
+                    | _ :: _ -> [])
+            | _ -> []))
+      | _ -> [])
+   | _ -> [])
+
+(** val with_block : wctx -> wctx **)
+
+let with_block w =
+  { in_block = true; excluded = w.excluded; cls = w.cls }
+
+(** val with_excluded : wctx -> wctx **)
+
+let with_excluded w =
+  { in_block = w.in_block; excluded = true; cls = w.cls }
+
+(** val sites_walk : site_cfg -> wctx -> node -> site list **)
+
+let rec sites_walk c w n0 =
+  let here =
+    if w.excluded
+    then []
+    else if (||) w.in_block (negb (eqb0 w.cls []))
+         then map (fun x ->
+                let (y, cl) = x in
+                let (k, what) = y in
+                { s_key = k; s_what = what; s_class =
+                (if eqb0 cl [] then w.cls else cl) }) (site_here c n0)
+         else []
+  in
+  let go = fun w' ->
+    let rec go = function
+    | [] -> []
+    | x :: l' -> app (sites_walk c w' x) (go l')
+    in go
+  in
+  app here
+    (let Node (t, cs) = n0 in
+     (match t with
+      | K (k, _, _) ->
+        (match k with
+         | KBlock -> go (with_block w) cs
+         | KTpl ->
+           (match cs with
+            | [] -> go w cs
+            | n1 :: l ->
+              let Node (t0, es) = n1 in
+              (match t0 with
+               | Lst ->
+                 (match l with
+                  | [] -> go w cs
+                  | _ :: l0 ->
+                    (match l0 with
+                     | [] ->
+                       if (&&) c.sc_tpl (tpl_has_lit es)
+                       then go (with_excluded w) es
+                       else go w es
+                     | _ :: _ -> go w cs))
+               | _ -> go w cs))
+         | KTaggedTpl ->
+           (match cs with
+            | [] -> go w cs
+            | _ :: l ->
+              (match l with
+               | [] -> go w cs
+               | tg :: l0 ->
+                 (match l0 with
+                  | [] -> go w cs
+                  | _ :: l1 ->
+                    (match l1 with
+                     | [] -> go w cs
+                     | n1 :: l2 ->
+                       let Node (t0, cs0) = n1 in
+                       (match t0 with
+                        | K (k0, _, _) ->
+                          (match k0 with
+                           | KTpl ->
+                             (match cs0 with
+                              | [] -> go w cs
+                              | n2 :: l3 ->
+                                let Node (t1, es) = n2 in
+                                (match t1 with
+                                 | Lst ->
+                                   (match l3 with
+                                    | [] -> go w cs
+                                    | _ :: l4 ->
+                                      (match l4 with
+                                       | [] ->
+                                         (match l2 with
+                                          | [] ->
+                                            app (sites_walk c w tg) (go w es)
+                                          | _ :: _ -> go w cs)
+                                       | _ :: _ -> go w cs))
+                                 | _ -> go w cs))
+                           | _ -> go w cs)
+                        | _ -> go w cs)))))
+         | KUnary ->
+           (match cs with
+            | [] -> go w cs
+            | n1 :: cs0 ->
+              let Node (t0, cs1) = n1 in
+              (match t0 with
+               | Str s ->
+                 (match s with
+                  | [] -> go w cs
+                  | a::s0 ->
+                    (* If this appears, you're using Ascii internals. Please don't *)
+ (fun f c ->
+  let n = Char.code c in
+  let h i = (n land (1 lsl i)) <> 0 in
+  f (h 0) (h 1) (h 2) (h 3) (h 4) (h 5) (h 6) (h 7))
+                      (fun b b0 b1 b2 b3 b4 b5 b6 ->
+                      if b
+                      then go w cs
+                      else if b0
+                           then go w cs
+                           else if b1
+                                then if b2
+                                     then go w cs
+                                     else if b3
+                                          then go w cs
+                                          else if b4
+                                               then if b5
+                                                    then if b6
+                                                         then go w cs
+                                                         else (match s0 with
+                                                               | [] -> go w cs
+                                                               | a0::s1 ->
+                                                                 (* If this appears, you're using Ascii internals. Please don't *)
+ (fun f c ->
+  let n = Char.code c in
+  let h i = (n land (1 lsl i)) <> 0 in
+  f (h 0) (h 1) (h 2) (h 3) (h 4) (h 5) (h 6) (h 7))
+                                                                   (fun b7 b8 b9 b10 b11 b12 b13 b14 ->
+                                                                   if b7
+                                                                   then 
+                                                                    if b8
+                                                                    then 
+                                                                    go w cs
+                                                                    else 
+                                                                    if b9
+                                                                    then 
+                                                                    if b10
+                                                                    then 
+                                                                    go w cs
+                                                                    else 
+                                                                    if b11
+                                                                    then 
+                                                                    go w cs
+                                                                    else 
+                                                                    if b12
+                                                                    then 
+                                                                    if b13
+                                                                    then 
+                                                                    if b14
+                                                                    then 
+                                                                    go w cs
+                                                                    else 
+                                                                    (match s1 with
+                                                                    | [] ->
+                                                                    go w cs
+                                                                    | a1::s2 ->
+                                                                    (* If this appears, you're using Ascii internals. Please don't *)
+ (fun f c ->
+  let n = Char.code c in
+  let h i = (n land (1 lsl i)) <> 0 in
+  f (h 0) (h 1) (h 2) (h 3) (h 4) (h 5) (h 6) (h 7))
+                                                                    (fun b15 b16 b17 b18 b19 b20 b21 b22 ->
+                                                                    if b15
+                                                                    then 
+                                                                    go w cs
+                                                                    else 
+                                                                    if b16
+                                                                    then 
+                                                                    go w cs
+                                                                    else 
+                                                                    if b17
+                                                                    then 
+                                                                    if b18
+                                                                    then 
+                                                                    if b19
+                                                                    then 
+                                                                    go w cs
+                                                                    else 
+                                                                    if b20
+                                                                    then 
+                                                                    if b21
+                                                                    then 
+                                                                    if b22
+                                                                    then 
+                                                                    go w cs
+                                                                    else 
+                                                                    (match s2 with
+                                                                    | [] ->
+                                                                    go w cs
+                                                                    | a2::s3 ->
+                                                                    (* If this appears, you're using Ascii internals. Please don't *)
+ (fun f c ->
+  let n = Char.code c in
+  let h i = (n land (1 lsl i)) <> 0 in
+  f (h 0) (h 1) (h 2) (h 3) (h 4) (h 5) (h 6) (h 7))
+                                                                    (fun b23 b24 b25 b26 b27 b28 b29 b30 ->
+                                                                    if b23
+                                                                    then 
+                                                                    if b24
+                                                                    then 
+                                                                    go w cs
+                                                                    else 
+                                                                    if b25
+                                                                    then 
+                                                                    if b26
+                                                                    then 
+                                                                    go w cs
+                                                                    else 
+                                                                    if b27
+                                                                    then 
+                                                                    go w cs
+                                                                    else 
+                                                                    if b28
+                                                                    then 
+                                                                    if b29
+                                                                    then 
+                                                                    if b30
+                                                                    then 
+                                                                    go w cs
+                                                                    else 
+                                                                    (match s3 with
+                                                                    | [] ->
+                                                                    go w cs
+                                                                    | a3::s4 ->
+                                                                    (* If this appears, you're using Ascii internals. Please don't *)
+ (fun f c ->
+  let n = Char.code c in
+  let h i = (n land (1 lsl i)) <> 0 in
+  f (h 0) (h 1) (h 2) (h 3) (h 4) (h 5) (h 6) (h 7))
+                                                                    (fun b31 b32 b33 b34 b35 b36 b37 b38 ->
+                                                                    if b31
+                                                                    then 
+                                                                    go w cs
+                                                                    else 
+                                                                    if b32
+                                                                    then 
+                                                                    go w cs
+                                                                    else 
+                                                                    if b33
+                                                                    then 
+                                                                    if b34
+                                                                    then 
+                                                                    go w cs
+                                                                    else 
+                                                                    if b35
+                                                                    then 
+                                                                    if b36
+                                                                    then 
+                                                                    if b37
+                                                                    then 
+                                                                    if b38
+                                                                    then 
+                                                                    go w cs
+                                                                    else 
+                                                                    (match s4 with
+                                                                    | [] ->
+                                                                    go w cs
+                                                                    | a4::s5 ->
+                                                                    (* If this appears, you're using Ascii internals. Please don't *)
+ (fun f c ->
+  let n = Char.code c in
+  let h i = (n land (1 lsl i)) <> 0 in
+  f (h 0) (h 1) (h 2) (h 3) (h 4) (h 5) (h 6) (h 7))
+                                                                    (fun b39 b40 b41 b42 b43 b44 b45 b46 ->
+                                                                    if b39
+                                                                    then 
+                                                                    if b40
+                                                                    then 
+                                                                    go w cs
+                                                                    else 
+                                                                    if b41
+                                                                    then 
+                                                                    if b42
+                                                                    then 
+                                                                    go w cs
+                                                                    else 
+                                                                    if b43
+                                                                    then 
+                                                                    go w cs
+                                                                    else 
+                                                                    if b44
+                                                                    then 
+                                                                    if b45
+                                                                    then 
+                                                                    if b46
+                                                                    then 
+                                                                    go w cs
+                                                                    else 
+                                                                    (match s5 with
+                                                                    | [] ->
+                                                                    (match cs1 with
+                                                                    | [] ->
+                                                                    go
+                                                                    (with_excluded
+                                                                    w) cs0
+                                                                    | _ :: _ ->
+                                                                    go w cs)
+                                                                    | _::_ ->
+                                                                    go w cs)
+                                                                    else 
+                                                                    go w cs
+                                                                    else 
+                                                                    go w cs
+                                                                    else 
+                                                                    go w cs
+                                                                    else 
+                                                                    go w cs)
+                                                                    a4)
+                                                                    else 
+                                                                    go w cs
+                                                                    else 
+                                                                    go w cs
+                                                                    else 
+                                                                    go w cs
+                                                                    else 
+                                                                    go w cs)
+                                                                    a3)
+                                                                    else 
+                                                                    go w cs
+                                                                    else 
+                                                                    go w cs
+                                                                    else 
+                                                                    go w cs
+                                                                    else 
+                                                                    go w cs)
+                                                                    a2)
+                                                                    else 
+                                                                    go w cs
+                                                                    else 
+                                                                    go w cs
+                                                                    else 
+                                                                    go w cs
+                                                                    else 
+                                                                    go w cs)
+                                                                    a1)
+                                                                    else 
+                                                                    go w cs
+                                                                    else 
+                                                                    go w cs
+                                                                    else 
+                                                                    go w cs
+                                                                   else 
+                                                                    go w cs)
+                                                                   a0)
+                                                    else go w cs
+                                               else go w cs
+                                else go w cs)
+                      a)
+               | _ -> go w cs))
+         | KArrow ->
+           (match cs with
+            | [] -> go w cs
+            | _ :: l ->
+              (match l with
+               | [] -> go w cs
+               | params :: l0 ->
+                 (match l0 with
+                  | [] -> go w cs
+                  | body :: l1 ->
+                    (match l1 with
+                     | [] -> go w cs
+                     | _ :: l2 ->
+                       (match l2 with
+                        | [] -> go w cs
+                        | _ :: l3 ->
+                          (match l3 with
+                           | [] -> go w cs
+                           | _ :: l4 ->
+                             (match l4 with
+                              | [] -> go w cs
+                              | _ :: l5 ->
+                                (match l5 with
+                                 | [] ->
+                                   app
+                                     (sites_walk c (with_excluded w) params)
+                                     (sites_walk c
+                                       (if is_kind KBlock body
+                                        then w
+                                        else with_block w) body)
+                                 | _ :: _ -> go w cs))))))))
+         | _ -> go w cs)
+      | _ -> go w cs))
+
+(** val required_sites : site_cfg -> node -> site list **)
+
+let required_sites c prog =
+  sites_walk c { in_block = false; excluded = false; cls = [] } prog
+
+(** val key_of_operation : node -> node list -> sp option **)
+
+let key_of_operation op env =
+  let Node (t, cs) = op in
+  (match t with
+   | K (k, lo, hi) ->
+     (match k with
+      | KBin -> Some (lo, hi)
+      | KTpl -> Some (lo, hi)
+      | KCall ->
+        (match cs with
+         | [] -> None
+         | _ :: l ->
+           (match l with
+            | [] -> None
+            | n0 :: l0 ->
+              let Node (t0, cs0) = n0 in
+              (match t0 with
+               | K (k0, _, _) ->
+                 (match k0 with
+                  | KMember ->
+                    (match cs0 with
+                     | [] -> None
+                     | obj :: l1 ->
+                       (match l1 with
+                        | [] -> None
+                        | _ :: l2 ->
+                          (match l2 with
+                           | [] ->
+                             (match l0 with
+                              | [] -> None
+                              | _ :: l3 ->
+                                (match l3 with
+                                 | [] -> None
+                                 | _ :: l4 ->
+                                   (match l4 with
+                                    | [] ->
+                                      (match ident_sym obj with
+                                       | Some tmp ->
+                                         (match lookup_assign tmp env with
+                                          | Some n1 ->
+                                            let Node (t1, cs1) = n1 in
+                                            (match t1 with
+                                             | K (k1, _, _) ->
+                                               (match k1 with
+                                                | KMember ->
+                                                  (match cs1 with
+                                                   | [] -> None
+                                                   | _ :: l5 ->
+                                                     (match l5 with
+                                                      | [] -> None
+                                                      | prop :: l6 ->
+                                                        (match l6 with
+                                                         | [] ->
+                                                           Some (span_of prop)
+                                                         | _ :: _ -> None)))
+                                                | _ -> None)
+                                             | _ -> None)
+                                          | None -> None)
+                                       | None -> None)
+                                    | _ :: _ -> None)))
+                           | _ :: _ -> None)))
+                  | _ -> None)
+               | _ -> None)))
+      | _ -> None)
+   | _ -> None)
+
+(** val hook_keys_aux : node list -> node -> sp list **)
+
+let rec hook_keys_aux env = function
+| Node (t, cs) ->
+  app
+    (match hook_call (Node (t, cs)) with
+     | Some p ->
+       let (_, args) = p in
+       (match first_arg args with
+        | Some op ->
+          (match key_of_operation op env with
+           | Some k -> k :: []
+           | None -> [])
+        | None -> [])
+     | None -> [])
+    (match t with
+     | K (k, _, _) ->
+       (match k with
+        | KSeq ->
+          (match cs with
+           | [] ->
+             let rec go = function
+             | [] -> []
+             | x :: l' -> app (hook_keys_aux env x) (go l')
+             in go cs
+           | n1 :: l ->
+             let Node (t0, es) = n1 in
+             (match t0 with
+              | Lst ->
+                (match l with
+                 | [] ->
+                   let rec go = function
+                   | [] -> []
+                   | x :: l' -> app (hook_keys_aux es x) (go l')
+                   in go es
+                 | _ :: _ ->
+                   let rec go = function
+                   | [] -> []
+                   | x :: l' -> app (hook_keys_aux env x) (go l')
+                   in go cs)
+              | _ ->
+                let rec go = function
+                | [] -> []
+                | x :: l' -> app (hook_keys_aux env x) (go l')
+                in go cs))
+        | _ ->
+          let rec go = function
+          | [] -> []
+          | x :: l' -> app (hook_keys_aux env x) (go l')
+          in go cs)
+     | _ ->
+       let rec go = function
+       | [] -> []
+       | x :: l' -> app (hook_keys_aux env x) (go l')
+       in go cs)
+
+(** val hook_keys : node -> sp list **)
+
+let hook_keys out =
+  hook_keys_aux [] out
+
+(** val sp_eqb : sp -> sp -> bool **)
+
+let sp_eqb a b =
+  (&&) (N.eqb (fst a) (fst b)) (N.eqb (snd a) (snd b))
+
+(** val missing_sites : site_cfg -> node -> node -> site list **)
+
+let missing_sites c pin pout =
+  let keys = hook_keys pout in
+  filter (fun s -> negb (existsb (sp_eqb s.s_key) keys))
+    (required_sites c pin)
